@@ -226,6 +226,19 @@ class C17Monitor:
                                        "expected": exp, "components": [(c.name, v, s) for c, v, s in zip(ms, vals, sh)]})
                         self.dead = True
                         return
+                # the fundamental index computed on request for that time is the same mean of the components'
+                # fundamental values for that time as they are now (a shock may have rewritten them since the index
+                # took its own record, which is not judged here)
+                fv = [c.get_fundamental_price(t) for c in ms]
+                got = im.compute_fundamental_index(t)
+                res.count("computed_fundamental_index_for_earlier_times_checked")
+                if not close(got, wmean(fv, sh)):
+                    res.violation("fundamental", "index-fundamental-not-share-weighted-mean-of-component-fundamentals",
+                                  {"index": im.name, "time": t, "now": now, "getter": "compute_fundamental_index(time)",
+                                   "observed": got, "expected": wmean(fv, sh),
+                                   "components": [(c.name, v, s_) for c, v, s_ in zip(ms, fv, sh)]})
+                    self.dead = True
+                    return
             if not close(im.get_index(), wmean([c.get_market_price() for c in ms], sh)):
                 res.violation("index", "index-value-not-share-weighted-mean-of-component-prices",
                               {"index": im.name, "time": "now(default)"})
